@@ -12,13 +12,18 @@ for n in $names; do
     git -C /repo apply $d/patch.diff
     cp evidence/$id.json /tmp/evidence_$id.keep 2>/dev/null
     (cd /tmp && PYTHONPATH=/repo/src MPLBACKEND=Agg timeout 900 /venv/bin/python $d/demo.py >/dev/null 2>&1); ds=$?
+    tf=$(/venv/bin/python -c "import json;print(json.dumps(json.load(open('$d/result.json')).get('repo_test_failures_with_change')))" 2>/dev/null || echo null); [ -z "$tf" ] && tf=null   # keep an earlier test-suite result
+    if [ -n "$RUN_TESTS" ]; then   # the repository's own suite on the changed tree (failures other than the known flake tests/test_fit.py::test_mom)
+      tf=$(cd /repo && MPLBACKEND=Agg timeout 1800 /venv/bin/python -m pytest -q -p no:cacheprovider --timeout=900 2>&1 | grep -E "^FAILED|^ERROR" | grep -vc "test_fit.py::test_mom")
+      find /repo -name __pycache__ -type d -prune -exec rm -rf {} + 2>/dev/null
+    fi
     out=$(./check $id quick 2>&1); rc=$?
     git -C /repo checkout -- .
     [ -f /tmp/evidence_$id.keep ] && mv /tmp/evidence_$id.keep evidence/$id.json   # evidence must come from the unchanged tree
     nv=$(echo "$out" | grep -c '^VIOLATION')
     nfi=$(echo "$out" | grep '^VIOLATION' | grep -vc 'no-failing-input-found')
     pok=$(echo "$out" | grep -o 'proof_ok=[A-Za-z]*' | tail -1)
-    echo "{\"seed\": \"$n\", \"property\": \"$id\", \"applies\": true, \"demo_exit_unchanged\": $dc, \"demo_exit_seeded\": $ds, \"check\": \"./check $id quick\", \"check_exit\": $rc, \"violation_lines\": $nv, \"with_concrete_input\": $nfi, \"$(echo $pok | cut -d= -f1)\": \"$(echo $pok | cut -d= -f2)\"}" > $d/result.json
+    echo "{\"seed\": \"$n\", \"property\": \"$id\", \"applies\": true, \"demo_exit_unchanged\": $dc, \"demo_exit_seeded\": $ds, \"repo_test_failures_with_change\": $tf, \"check\": \"./check $id quick\", \"check_exit\": $rc, \"violation_lines\": $nv, \"with_concrete_input\": $nfi, \"$(echo $pok | cut -d= -f1)\": \"$(echo $pok | cut -d= -f2)\"}" > $d/result.json
   else
     echo "{\"seed\": \"$n\", \"property\": \"$id\", \"applies\": false}" > $d/result.json
   fi
